@@ -161,6 +161,33 @@ def run_shard(sh):
                         {'width': rng.choice([10, 20, 40]), 'ribbon_width': rng.choice([5, 20, 71]), 'indent': rng.choice([1, 2, 4, 8]), 'sort_dict_keys': True}]
                 run_case(sh, recipe, cfgs, 'needle-%d' % d)
                 sh.counters['needle cases'] += 1
+    # (d) key sorting: small key domains, so that equal members / common prefixes are frequent; every key object is built afresh
+    #     (equal but not identical), insertion order shuffled
+    atoms = [['float', '1.5'], ['str', 'alice'], ['int', 10 ** 20], ['int', 7], ['str', 'bob'], ['bytes', 'k'], ['float', '-0.0'], ['tuple', []], ['tuple', [['int', 1]]], ['bool', True]]
+    for i in range(1500 if quick else 40000):
+        idx += 1
+        if not sh.mine(idx):
+            continue
+        rng = V.rng_for('c01d', sh.seed, i)
+        kind = rng.choice(['tuple', 'tuple', 'tuple', 'str', 'int', 'mixed'])
+        keys = []
+        for _ in range(rng.randint(2, 7)):
+            if kind == 'tuple':
+                keys.append(['tuple', [rng.choice(atoms[:5]) for _ in range(rng.randint(1, 3))]])
+            elif kind == 'str':
+                keys.append(['str', rng.choice(['a', 'b', 'ab', 'alice', 'Alice', ''])])
+            elif kind == 'int':
+                keys.append(rng.choice([['int', rng.randint(-3, 3)], ['float', rng.choice(['0.5', '2.0', '-1.5'])], ['bool', rng.random() < 0.5]]))
+            else:
+                keys.append(rng.choice(atoms))
+        rng.shuffle(keys)
+        recipe = ['dict', [[k, ['int', j]] for j, k in enumerate(keys)]]
+        if rng.random() < 0.3:
+            recipe = ['list', [recipe, ['dict', [[['tuple', [recipe[1][0][0], ['int', 0]]], ['none']], [['tuple', [recipe[1][-1][0], ['int', -1]]], ['none']]]]]]
+        cfgs = [{'width': rng.choice([10, 40, 79, 200]), 'ribbon_width': rng.choice([20, 71, 200]), 'indent': rng.choice([2, 4]), 'sort_dict_keys': True},
+                {'width': 79, 'ribbon_width': 71, 'indent': 4, 'sort_dict_keys': False}]
+        run_case(sh, recipe, cfgs, 'sorting')
+        sh.counters['key-sorting cases'] += 1
     for k, v in M.COUNTS.items():
         sh.counters['contract calls: ' + k] += v
 
